@@ -61,14 +61,27 @@ func implBits(b uint32) string {
 	return fmt.Sprintf("%s %s", domains.CompactToBig(b).String(), domains.CalculateWork(b).BigInt().String())
 }
 
+// c19Recent: the last inputs evaluated in this process, oldest first — the functions are pure, so an answer must not
+// depend on them; when one does, the replay needs them.
+var c19Recent []uint32
+
 func c19CheckBits(c *Ctx, b uint32) {
 	t := refTarget(b)
 	want := fmt.Sprintf("%s %s", t.String(), refWork(t).String())
 	got := implBits(b)
 	c.R.OracleChecked++
 	if got != want {
-		c.R.Fail(lib.Failure{Case: fmt.Sprintf("bits %d", b), Ops: []string{fmt.Sprintf("bits %d", b)}, What: "compact-bits target/work differs from sign*mantissa*256^(e-3), floor(2^256/(t+1))",
+		var ops []string
+		for _, r := range c19Recent {
+			ops = append(ops, fmt.Sprintf("bits %d", r))
+		}
+		ops = append(ops, fmt.Sprintf("bits %d", b))
+		c.R.Fail(lib.Failure{Case: fmt.Sprintf("bits %d", b), Ops: ops, What: "compact-bits target/work differs from sign*mantissa*256^(e-3), floor(2^256/(t+1)) (the ops list the inputs evaluated just before it, in order)",
 			Expected: want, Observed: got, Signature: "c19-bits"})
+	}
+	c19Recent = append(c19Recent, b)
+	if len(c19Recent) > 6 {
+		c19Recent = c19Recent[1:]
 	}
 }
 
@@ -96,6 +109,14 @@ func runC19(c *Ctx) error {
 				bitsIn = append(bitsIn, e<<24|s<<23|m)
 			}
 		}
+	}
+	// histories: the functions are pure — the same input after other inputs (positive after non-positive after positive,
+	// runs of one value, alternations) must give the same answer; anything that remembers a previous call shows here
+	pos := []uint32{0x1d00ffff, 0x207fffff, 0x03000001, 0x1901f000, 0x1b0404cb, 0x04123456}
+	non := []uint32{0x1d80ffff, 0x1d000000, 0, 0x01003456, 0xff7fffff, 0x00800000}
+	for i, a := range pos {
+		n, b := non[i%len(non)], pos[(i+1)%len(pos)]
+		bitsIn = append(bitsIn, a, n, a, n, n, a, a, b, a, n, b, n, a)
 	}
 	nr := 20000
 	if c.Thorough {
